@@ -147,7 +147,12 @@ pub fn run_pattern(hsecs: u16, extra: (u16, u16), p: Pattern, res: &mut CaseResu
                     return;
                 }
             };
-            h.with(|st| st.budget = 0);
+            // the transport takes a few more bytes and then nothing: the stall begins inside a
+            // frame of the publish (a heartbeat must not be spliced into it) or, rarely, at a
+            // frame boundary
+            let take = (crate::rng::fnv_str(&res.id) % 3050) as usize;
+            res.obs("stall_offset_in_publish", take as u64);
+            h.with(|st| st.budget = take);
             let _ = ch.basic_publish("", Publish::new(&vec![1u8; 3000], "stalled"));
             let until = t0 + hd.mul_f64(1.5);
             while Instant::now() < until {
